@@ -419,9 +419,9 @@ def r8_selector_not_truth_tested(ctx, rule='R8t'):
     selectors = set()
     for c in sites:
         if c.args:
-            p = pseudo(c.args[0])
-            if p:
-                selectors.add((ctx.repo.module_of(c).name, p))
+            for nm in names_in(c.args[0]):
+                if nm not in ('self', 'None'):
+                    selectors.add((ctx.repo.module_of(c).name, nm))
     for modname, sel in sorted(selectors):
         m = ctx.repo.module(modname)
         for node in ast.walk(m.tree):
